@@ -5,6 +5,7 @@
 mod common;
 mod eng_diff;
 mod eng_vec;
+mod eng_adp;
 
 use common::*;
 use std::path::PathBuf;
@@ -30,6 +31,7 @@ fn main() {
     match a.engine.as_str() {
         "diff" => eng_diff::run(&a, &mut sink),
         "vec" => eng_vec::run(&a, &mut sink),
+        "adp" => eng_adp::run(&a, &mut sink),
         e => {
             eprintln!("unknown engine {e}");
             std::process::exit(2);
